@@ -330,6 +330,7 @@ type Obligation struct {
 	Label    string
 	Tags     []string
 	traceLen int
+	noFault  string // the $rdfail term of the obligation's state: assumed false (empty: the state never met a read)
 	pc       string
 	goal     string
 	Pos      string
@@ -654,6 +655,12 @@ func (g *FuncGen) oblige(st *State, kind, label string, tags []string, goal stri
 		name = fmt.Sprintf("%s#%d", name, k)
 	}
 	o := &Obligation{Name: name, Func: g.F.Key, Kind: kind, Label: label, Tags: tags, traceLen: len(g.trace), pc: st.pc, goal: goal, Src: src}
+	// every obligation other than the reporting ones (C16) is about runs in which no read of an existing path has failed
+	noFault := ""
+	if rd, ok := st.heap["$rdfail"]; ok && kind != "iofail" && !strings.HasPrefix(kind, "iofail-keep/") {
+		o.noFault = rd
+		noFault = rd
+	}
 	if pos.IsValid() {
 		p := g.P.Fset.Position(pos)
 		o.Pos = fmt.Sprintf("%s:%d", strings.TrimPrefix(p.Filename, "/repo/"), p.Line)
@@ -661,7 +668,12 @@ func (g *FuncGen) oblige(st *State, kind, label string, tags []string, goal stri
 	g.obls = append(g.obls, o)
 	// assert-then-assume (postconditions and frames at the exit are independent of each other: not assumed)
 	if !g.noAssume {
-		g.assume(st, goal)
+		if noFault != "" {
+			// proved for fault-free runs only: that is all a later reporting obligation may take from it
+			g.assume(st, fmt.Sprintf("(=> (not %s) %s)", noFault, goal))
+		} else {
+			g.assume(st, goal)
+		}
 	}
 }
 
@@ -716,6 +728,10 @@ func frameTrace(trace []string, goal string) []string {
 			if strings.HasPrefix(l, "(assert (forall ((r Int)) (! (=> (select alloc_") || strings.HasPrefix(l, "(assert (= pc_") || strings.HasPrefix(l, "(assert (not (select alloc_") {
 				keep = true
 			}
+			// the chain of the read-fault flag: a callee's frame clause is available only where the flag is down
+			if strings.Contains(l, "H_Grdfail") && len(l) < 400 {
+				keep = true
+			}
 		}
 		if keep {
 			out = append(out, l)
@@ -752,6 +768,9 @@ func (g *FuncGen) vcText(o *Obligation, prelude string) string {
 		sb.WriteString("\n")
 	}
 	sb.WriteString("(assert " + o.pc + ")\n")
+	if o.noFault != "" {
+		sb.WriteString("(assert (not " + o.noFault + "))\n")
+	}
 	sb.WriteString("(assert (not " + o.goal + "))\n")
 	sb.WriteString("(check-sat)\n")
 	return sb.String()
